@@ -27,11 +27,42 @@ pub struct Src<'a> {
     pub overrun: usize,
 }
 
+thread_local! {
+    /// A hash of the data of the case this thread is running (set whenever a `Src` is made from it): a source of
+    /// choices that are pure functions of the case and cost no draw -- see `case_bit`.
+    static CASE_SALT: std::cell::Cell<u64> = const { std::cell::Cell::new(0) };
+}
+
+/// Bit `k` of the case's salt.
+pub fn case_bit(k: u32) -> bool {
+    (CASE_SALT.with(|c| c.get()) >> (k % 64)) & 1 == 1
+}
+
+/// The object under test as `T::new()` gives it or as `T::default()` gives it (every second case): the two are
+/// documented / implemented as the same starting state, and nothing in any statement depends on which was called.
+pub fn new_or_default<T: Default>(mk: fn() -> T) -> T {
+    if case_bit(7) {
+        T::default()
+    } else {
+        mk()
+    }
+}
+
 impl<'a> Src<'a> {
     pub fn bytes(b: &'a [u8]) -> Self {
+        let mut h: u64 = 0xcbf2_9ce4_8422_2325;
+        for x in b {
+            h = (h ^ *x as u64).wrapping_mul(0x0000_0100_0000_01b3);
+        }
+        CASE_SALT.with(|c| c.set(h ^ (h >> 29)));
         Src { mode: SrcMode::Bytes(b), pos: 0, bounds: Vec::new(), overrun: 0 }
     }
     pub fn choices(c: &'a [u32]) -> Self {
+        let mut h: u64 = 0xcbf2_9ce4_8422_2325;
+        for x in c {
+            h = (h ^ *x as u64).wrapping_mul(0x0000_0100_0000_01b3);
+        }
+        CASE_SALT.with(|s| s.set(h ^ (h >> 29)));
         Src { mode: SrcMode::Choices(c), pos: 0, bounds: Vec::new(), overrun: 0 }
     }
     pub fn is_enumerating(&self) -> bool {
